@@ -1,10 +1,13 @@
 SPECIFICATION Spec
 CONSTANTS
-  Txs <- T3
-  Limit = 2
-  MaxBlk = 2
+  Txs <- T2
+  Subm <- S1
+  Limit = 0
+  MaxBlk = 1
+  PushChecked = TRUE
+  AtomicAppend = TRUE
   KeepCommittedInCache = FALSE
 VIEW view
-INVARIANTS NoDuplicates HeldIsCached WithinBounds NoReofferCommitted ResubOnlyAfterFlush
+INVARIANTS NoDuplicates HeldIsCached WithinBounds NoReofferCommitted
 PROPERTIES RejectsDuplicates
 CHECK_DEADLOCK FALSE
